@@ -7,7 +7,8 @@
    answers are deliberately wrong must be reported at exactly those indices) and re-derives reported differences
    through the independent printing path ([run], parsed by python).
 
-   Wire format (all numbers < 2^63; a batch is a sequence of cases):
+   Wire format (all numbers < 2^63; a batch is [number of cases ; case ...], written as LEB128 bytes, 7 bytes per array cell,
+   cell 0 = number of bytes):
      case   := str ; 0                       (implementation rejected)
              | str ; 1 ; n ; token^n         (implementation accepted with n tokens)
      str    := len ; code point^len
@@ -24,15 +25,33 @@ Local Open Scope N_scope.
 
 Definition int_to_N (i : int) : N := Z.to_N (Uint63.to_Z i).
 
-(* the first [n] cells of the array, in order *)
-Fixpoint arr_prefix (a : array int) (n : nat) (acc : list N) : list N :=
+(* ---- layer 1: array of 63-bit integers -> bytes.  Cell 0 is the number of bytes; every further cell carries 7 bytes,
+   least significant first (Coq's parser costs ~20 us per integer token whatever its size, so small values are packed). *)
+Definition unpack7 (i : int) (acc : list N) : list N :=
+  let n0 := int_to_N i in let n1 := N.shiftr n0 8 in let n2 := N.shiftr n1 8 in let n3 := N.shiftr n2 8 in
+  let n4 := N.shiftr n3 8 in let n5 := N.shiftr n4 8 in let n6 := N.shiftr n5 8 in
+  N.land n0 255 :: N.land n1 255 :: N.land n2 255 :: N.land n3 255 :: N.land n4 255 :: N.land n5 255 :: N.land n6 255 :: acc.
+(* bytes of the cells 1 .. i-1 (i is carried as a primitive integer so that a step costs O(1)) *)
+Fixpoint arr_bytes (a : array int) (n : nat) (i : int) (acc : list N) : list N :=
   match n with
   | O => acc
-  | S k => arr_prefix a k (int_to_N (PArray.get a (Uint63.of_Z (Z.of_nat k))) :: acc)
+  | S k => let j := Uint63.sub i 1%uint63 in arr_bytes a k j (unpack7 (PArray.get a j) acc)
   end.
-Definition arr_to_list (a : array int) : list N :=
-  arr_prefix a (Z.to_nat (Uint63.to_Z (PArray.length a))) [].
+Definition arr_to_bytes (a : array int) : list N :=
+  let len := PArray.length a in
+  let cells := Z.to_nat (Uint63.to_Z len) in
+  firstn (N.to_nat (int_to_N (PArray.get a 0%uint63))) (arr_bytes a (Nat.pred cells) len []).
 
+(* ---- layer 2: bytes -> numbers (LEB128: 7 bits per byte, least significant group first, bit 7 = "more follows") *)
+Fixpoint unvar (l : list N) (sh acc : N) : list N :=
+  match l with
+  | [] => []
+  | b :: r => if b <? 128 then (acc + N.shiftl b sh) :: unvar r 0 0
+              else unvar r (sh + 7) (acc + N.shiftl (b - 128) sh)
+  end.
+Definition arr_to_list (a : array int) : list N := unvar (arr_to_bytes a) 0 0.
+
+(* ---- layer 3: numbers -> cases *)
 Definition dec (A : Type) := list N -> option (A * list N).
 
 Fixpoint d_take (k : nat) (l : list N) : option (list N * list N) :=
